@@ -41,7 +41,7 @@ theorem invB_kstep (sh : Sh) (ppc : PPc) (kpc : Nat → KPc) (epc : Tid → EPc)
     simp only [kstep, kfin, hfx] at hts
     (repeat' split at hts) <;> (try contradiction) <;> simp only [Option.some.injEq, Prod.mk.injEq] at hts <;> obtain ⟨rfl, rfl⟩ := hts <;>
       constructor <;> simp only [] <;> grind
-  | kf0 a | kf3 a | kt a =>
+  | kf0 a | kf3 a | kt a | kd0 a | kd1c a | kd3 a | kd3c a =>
     have := hfxK n
     rw [hpc] at this
     simp [isFx, hfx] at this
